@@ -193,6 +193,15 @@ impl Report {
             println!("KNOWN-FINDING: property={prop} {id}: {what} ({n} generated cases hit it)");
         }
         let mut seen_msgs: BTreeSet<String> = BTreeSet::new();
+        // a compilation stopped by the CPU-time limit is a verdict only for the termination property (C17); for every
+        // other check it means "could not be evaluated"
+        if prop != "C17" {
+            let (timeouts, rest): (Vec<Failure>, Vec<Failure>) = std::mem::take(&mut self.violations).into_iter().partition(|f| f.msg.contains("CPU-LIMIT"));
+            self.violations = rest;
+            for f in timeouts.iter().take(3) {
+                self.inconclusive.push(format!("not evaluated: {}", f.msg.chars().take(300).collect::<String>()));
+            }
+        }
         let vio = std::mem::take(&mut self.violations);
         for f in &vio {
             let dir = Path::new(engine::VERIF).join("replays").join(&prop);
